@@ -105,7 +105,8 @@ def execute(acc, case):
             expected_dwr = [k[1] for k in kinds if k[0] == "DWR"]
             sc.inject(stream, chunks=chunks, settle=case.get("settle", True))
             done = lambda: len(delivered) >= len(expected_app) and len([c for c in sc.consumed if c[0] == "Open"]) >= len(kinds)
-            ok = sc.sched.run_until(done, 20.0, "delivery")
+            t_last_byte = sc.sched.now
+            ok = sc.sched.run_until(done, 3.0, "delivery")
             sc.sched.run_until(lambda: False, 0.01, "grace")     # a little longer: duplicates would show up now
             acc.counters["executions"] += 1
             got = []
@@ -157,8 +158,17 @@ def execute(acc, case):
             acc.counters["consumption_order_checked"] += 1
         except vsched.DeadlockError as ex:
             acc.violation("deadlock", "deadlock: %s" % ex, dict(wit, stacks=sc.sched.stacks()))
+        except vsched.WallClock as ex:
+            acc.inconclusive.append("%s (case %r)" % (ex, case))
         except vsched.StepBudget as ex:
-            acc.inconclusive.append("step budget exhausted: %s (case %r)" % (ex, case))
+            # bounded progress: the unchanged code delivers within milliseconds of the last byte; a second of virtual time
+            # and hundreds of thousands of steps later the messages are not coming any more
+            if "t_last_byte" in dir() and sc.sched.now - t_last_byte > 1.0 and len(delivered) < len([k for k in kinds if k[0] == "APP"]):
+                acc.violation("inbound-lost", "only %d of %d messages delivered %.1f virtual s after the last byte (step budget reached; segmentation %s, strategy %s)" % (
+                    len(delivered), len([k for k in kinds if k[0] == "APP"]), sc.sched.now - t_last_byte, case["seg"], case["strategy"]),
+                    dict(wit, deaths=sc.sched.deaths, schedule=sc.sched.schedule_hash(), choices=sc.sched.choices[:3000]))
+            else:
+                acc.inconclusive.append("step budget exhausted: %s (case %r)" % (ex, case))
         except N.NonTerminatingDecode as ex:
             acc.violation("decoder-non-terminating-in-worker", str(ex), wit)
         cov = sc.coverage()
@@ -223,7 +233,7 @@ def main(tier, seed):
     return harness.finish(PROP, tier, seed, "exploration", acc, RULE,
                           ["vnet is a model of Linux TCP sockets (fidelity self-test in tools/selftest_vnet.py); schedules are explored at "
                            "synchronisation-operation and source-line granularity of transport.py/setup.py/statemachine.py",
-                           "bounded progress: all messages delivered within 20 virtual seconds after the last byte"],
+                           "bounded progress: all messages delivered within 3 virtual seconds after the last byte (the unchanged code needs milliseconds)"],
                           t0, require_counters=("executions", "steps", "recv_chunks"))
 
 
